@@ -56,7 +56,7 @@ func IsHelperOp(line string) bool {
 		return false
 	}
 	switch ws[1] {
-	case "divide", "window", "encode", "decode", "unshift", "shift", "matches", "sigdomain", "alphadomain":
+	case "divide", "window", "windowseq", "encode", "decode", "unshift", "shift", "matches", "sigdomain", "alphadomain":
 		return true
 	}
 	return false
@@ -169,6 +169,60 @@ func (w *World) Exec(line string) (obs string) {
 			w.Run.Count("out.window.plain")
 		}
 		return fmt.Sprintf("HALT ret=%d,%d", nonce, vub)
+	case "windowseq":
+		// ONE modifier (built at the first height, as the sync stages build it before their loop) applied once per height
+		st := a[0]
+		if st == "-" {
+			st = ""
+		}
+		var hs []uint32
+		for _, x := range a[1:] {
+			h, err := strconv.ParseUint(x, 10, 32)
+			if err != nil {
+				w.Run.T.Fatal(err)
+			}
+			hs = append(hs, uint32(h))
+		}
+		nonces, vubs, errs := deploy.VerifRuntimeTxWindowSeq(hs, st)
+		if len(nonces) != len(hs) || len(vubs) != len(hs) || len(errs) != len(hs) {
+			w.Run.T.Fatalf("hook returned %d/%d/%d results for %d heights", len(nonces), len(vubs), len(errs), len(hs))
+		}
+		items := make([]string, len(hs))
+		nerr := 0
+		first := uint64(hs[0]) / 100
+		for i, h := range hs {
+			if errs[i] != nil {
+				nerr++
+				items[i] = "ERR"
+				if st == "HALT" {
+					v("refused-halt", fmt.Sprintf("application %d (height %d): modifier refused a HALTed invocation: %v", i, h, errs[i]))
+				}
+				continue
+			}
+			if st != "HALT" {
+				v("accepted-nonhalt", fmt.Sprintf("application %d: modifier accepted VM state %s", i, st))
+			}
+			items[i] = fmt.Sprintf("%d:%d", nonces[i], vubs[i])
+			// monitor: every transaction gets the window of ITS OWN height: 100*N <= height < 100*(N+1)
+			N := uint64(h) / 100
+			wantVub := min(100*(N+1), math.MaxUint32)
+			if uint64(nonces[i]) != 100*N || uint64(vubs[i]) != wantVub {
+				what := "window-wrong"
+				if N != first && uint64(nonces[i]) == 100*first {
+					what = "window-frozen" // the window of the height at which the modifier was built
+				}
+				v(what, fmt.Sprintf("application %d at height %d got nonce %d, ValidUntilBlock %d; its own window is nonce %d, ValidUntilBlock %d (modifier built at height %d)",
+					i, h, nonces[i], vubs[i], 100*N, wantVub, hs[0]))
+			} else if uint64(vubs[i]) < uint64(h) || (uint64(vubs[i]) == uint64(h) && h != math.MaxUint32) {
+				v("vub-expired", fmt.Sprintf("application %d: ValidUntilBlock %d is not after the current height %d", i, vubs[i], h))
+			}
+		}
+		if nerr == len(hs) {
+			w.Run.Count("out.windowseq.err")
+			return "FAULT"
+		}
+		w.Run.Count("out.windowseq.ok")
+		return "HALT ret=[" + strings.Join(items, ";") + "]"
 	case "encode":
 		x := shared(a[0], a[1], a[2])
 		b, s := x.Bytes(), x.EncodeToString()
@@ -400,6 +454,88 @@ func genWindow(rng *rand.Rand, tier string, shard, shards int, out Emit) {
 	}
 }
 
+// genWindowSeq: one modifier used at several heights — across multiples of the span, at the uint32 saturation
+// boundary, decreasing and equal heights, random walks.
+func genWindowSeq(rng *rand.Rand, tier string, out Emit) {
+	seq := func(st string, hs ...uint64) {
+		parts := make([]string, len(hs))
+		for i, h := range hs {
+			parts[i] = strconv.FormatUint(min(h, math.MaxUint32), 10)
+		}
+		out("op windowseq " + st + " " + strings.Join(parts, " "))
+	}
+	const top = uint64(math.MaxUint32)
+	// across one and several multiples of 100
+	for _, k := range []uint64{1, 2, 7, 1000, 42949671, 42949672} {
+		b := 100 * k
+		seq("HALT", b-1, b)
+		seq("HALT", b-50, b+50)
+		seq("HALT", b-1, b, b+1)
+		seq("HALT", b-100, b-1, b, b+99, min(b+100, top))
+		seq("HALT", b, b-1) // decreasing across the boundary
+	}
+	seq("HALT", 0, 99, 100, 199, 200, 1000)
+	seq("HALT", 50, 150, 250, 350)
+	seq("HALT", 350, 250, 150, 50) // decreasing
+	seq("HALT", 100, 99, 0)
+	// equal heights, single applications
+	seq("HALT", 7, 7, 7)
+	seq("HALT", 100, 100)
+	seq("HALT", top, top)
+	seq("HALT", 0)
+	seq("HALT", top)
+	// the saturation boundary
+	seq("HALT", top-196, top-195, top-96, top-95, top-1, top)
+	seq("HALT", top-95, top-96) // back out of the saturated window
+	seq("HALT", top-300, top-200, top-100, top)
+	seq("HALT", 0, top)
+	seq("HALT", top, 0)
+	// other VM states
+	seq("FAULT", 50, 150)
+	seq("-", 99, 100)
+	seq("BREAK", 5)
+	cnt := 200
+	if tier == "thorough" {
+		cnt = 3000
+	}
+	for i := 0; i < cnt; i++ {
+		n := 1 + rng.IntN(6)
+		h := u32(rng)
+		if rng.IntN(3) == 0 { // start shortly before a multiple of the span
+			h = uint64(rng.Uint32())/100*100 + 90 + uint64(rng.IntN(10))
+			if h > top {
+				h = top - 5
+			}
+		}
+		hs := []uint64{h}
+		for len(hs) < n {
+			step := int64(rng.IntN(150))
+			switch rng.IntN(8) {
+			case 0:
+				step = -step // the height source may also go back (another RPC node)
+			case 1:
+				step = 0
+			case 2:
+				step = int64(rng.IntN(3))
+			}
+			nh := int64(h) + step
+			if nh < 0 {
+				nh = 0
+			}
+			if nh > int64(top) {
+				nh = int64(top)
+			}
+			h = uint64(nh)
+			hs = append(hs, h)
+		}
+		st := "HALT"
+		if rng.IntN(12) == 0 {
+			st = hx.Pick(rng, []string{"FAULT", "BREAK", "-", "halt"})
+		}
+		seq(st, hs...)
+	}
+}
+
 func genCodec(rng *rand.Rand, tier string, out Emit) {
 	cnt := 250
 	if tier == "thorough" {
@@ -537,6 +673,7 @@ func Groups(run *hx.Run) []Group {
 	return []Group{
 		{"divide", func(o Emit) { genDivide(rng, run.Tier, run.Shard, run.Shards, o) }},
 		{"window", func(o Emit) { genWindow(rng, run.Tier, run.Shard, run.Shards, o) }},
+		{"windowseq", func(o Emit) { genWindowSeq(rng, run.Tier, o) }},
 		{"codec", func(o Emit) { genCodec(rng, run.Tier, o) }},
 		{"domains", func(o Emit) { genDomains(o) }},
 	}
